@@ -727,3 +727,43 @@ Proof.
   unfold manifest_path in P. rewrite Hd in P.
   destruct (pub_detached s s' (target s t) _ W P eq_refl Hd) as (W' & HL & Hvis). auto.
 Qed.
+
+(* ---------- the handler's calls are C02's handler programs, for one writer ----------
+   Running the first j calls of `commit_calls h tv m` on a store where the final and the staging path are free
+   and running j steps of writer t in Store.Model_Handlers (the model C02's theorems are about, tied to the real
+   handlers by hx_c02) agree on what the final path and the staging path hold; after the last call the C02
+   writer is Done ROk, and (C02's I_ok) Done ROk means the final path holds the writer's manifest. *)
+Lemma commit_calls_refine_handlers h tv m t st0 s1 j :
+  st0 (KFinal tv) = None -> st0 (KTmp t) = None ->
+  has s1 (manifest_path tv) = false -> has s1 (PTmp tv) = false ->
+  (j <= length (commit_calls h tv m))%nat ->
+  let hs := Model_Handlers.run (repeat (Run t) j) (init st0 (fun _ => tv) (fun _ => h)) in
+  let s2 := exec (firstn j (commit_calls h tv m)) s1 in
+  (sto hs (KFinal tv) = Some (By t) <-> get s2 (manifest_path tv) = Some (CMan m))
+  /\ (sto hs (KFinal tv) = None <-> get s2 (manifest_path tv) = None)
+  /\ (sto hs (KTmp t) = None <-> get s2 (PTmp tv) = None)
+  /\ (j = length (commit_calls h tv m) -> tpc (thr hs t) = Done ROk)
+  /\ (tpc (thr hs t) = Done ROk -> sto hs (KFinal tv) = Some (By t)).
+Proof.
+  intros H1 H2 H3 H4 Hj.
+  assert (Hne : PTmp tv <> manifest_path tv) by (unfold manifest_path; destruct (is_detached tv); discriminate).
+  assert (Hne' : manifest_path tv <> PTmp tv) by (intro E; apply Hne; symmetry; exact E).
+  pose proof (proj1 (has_false _ _) H3) as G3. pose proof (proj1 (has_false _ _) H4) as G4.
+  unfold commit_calls in *.
+  destruct h; cbn [length] in Hj;
+    repeat (destruct j as [|j]; [|try lia]);
+    cbn [repeat Model_Handlers.run fold_left firstn exec Model_Commit.step];
+    repeat (progress (unfold Model_Handlers.step, mk, set_thr, init, upd, Model_Handlers.del;
+                      cbn [ev_tid ev_mode thr sto lck kind ver tpc key_eqb is_none];
+                      rewrite ?N.eqb_refl, ?H1, ?H2;
+                      cbn [ev_tid ev_mode thr sto lck kind ver tpc key_eqb is_none]));
+    rewrite ?H3, ?get_put_same;
+    try (replace (has (put s1 (PTmp tv) (CMan m)) (manifest_path tv)) with false
+           by (symmetry; apply has_false; rewrite get_put_other by exact Hne; exact G3));
+    cbn [exec Model_Commit.step length];
+    rewrite ?get_put_same, ?G3, ?G4;
+    try rewrite (get_put_other _ (PTmp tv) _ (manifest_path tv) Hne);
+    try rewrite (get_put_other _ (manifest_path tv) _ (PTmp tv) Hne');
+    try rewrite get_del_same; rewrite ?G3, ?G4;
+    repeat split; intros; try discriminate; try reflexivity; try congruence.
+Qed.
